@@ -294,7 +294,8 @@ pub fn check(case: &Case, w: usize) -> CheckResult {
         ("MRV_TRACE", holder_trace.display().to_string()),
     ];
     if delay_ms > 0 {
-        henv.push(("MRV_POINTS", format!("lock.acquired=delay:{}", delay_ms)));
+        // the holder is paused inside its critical section, right after it got the lock guard
+        henv.push(("MRV_POINTS", format!("lock.held=delay:{}", delay_ms)));
     }
     let mut holder = env.mr_spawn(&holder_api.args(), &henv);
     let holder_pid = holder.pid;
@@ -308,7 +309,7 @@ pub fn check(case: &Case, w: usize) -> CheckResult {
         let acquired = read_points(&log).iter().find(|l| l.pid == holder_pid && l.name == "lock.acquired").map(|l| l.ns);
         let ready = match case.holder {
             HolderKind::GatedRun => acquired.is_some() && helper_starts(&holder_trace) >= 1,
-            HolderKind::Delayed(_) => acquired.is_some(),
+            HolderKind::Delayed(_) => read_points(&log).iter().any(|l| l.pid == holder_pid && l.name == "lock.held"),
         };
         if ready {
             break bb::monotonic_ns();
@@ -344,7 +345,7 @@ pub fn check(case: &Case, w: usize) -> CheckResult {
     let holder_still_inside = match case.holder {
         HolderKind::GatedRun => !holder.try_done(),
         HolderKind::Delayed(_) => {
-            let acq = read_points(&log).iter().find(|l| l.pid == holder_pid && l.name == "lock.acquired").map(|l| l.ns).unwrap_or(0);
+            let acq = read_points(&log).iter().find(|l| l.pid == holder_pid && l.name == "lock.held").map(|l| l.ns).unwrap_or(0);
             snap_ns + 200_000_000 < acq + (delay_ms as u128) * 1_000_000
         }
     };
@@ -472,7 +473,7 @@ pub fn run(ctx: &mut Ctx) {
     ctx.hang_limit = Duration::from_secs(400);
     ctx.shrink_budget = Duration::from_secs(30);
     ctx.rule = "phase A: 2-8 invocations drawn from {run, checkpoint update, update -p, checkpoint delete, out delete --all} sharing one lock address, started with offsets 0-100 ms. \
-phase B: a holder kept inside its critical section (a `run` whose helper blocks on a gate, or any of the APIs delayed right after lock acquisition), 1-7 contenders started while it is inside, \
+phase B: a holder kept inside its critical section (a `run` whose helper blocks on a gate, or any of the APIs delayed at the `lock.held` point right after it obtained its lock guard), 1-7 contenders started while it is inside, \
 0-2 late contenders started 110-400 ms before the holder ends, holder termination by normal exit, failing run or SIGKILL, then one more invocation. oracle: (i) from the point log, [lock.acquired, lock.release] intervals of different processes never overlap (a killed \
 holder's interval ends at a time stamp taken before the kill); (ii) a process that never acquired, and every contender that ran while the holder was provably inside, ends non-zero with a lock error, \
 starts no executable (own trace directory), and the out directory is byte-identical before/after the contenders; (iii) after the holder ended the next invocation does not get a lock error; (iv) a process whose bind attempt (lock.attempt) fell inside another process's holding interval, with 100 ms to spare before the release, never acquires. \
